@@ -466,3 +466,13 @@ prop("C20", units=["reproc/src/reproc.c (reproc_read, reproc_write, reproc_close
               "kernel atomicity of concurrent read/write/fork", "TSan-class dynamic races", "the window between pipe() "
               "and FD_CLOEXEC when another thread forks (C11's child-side closing loop is what protects against it)"])
 add("C20", lambda tier: [frame_job(0), frame_job(1), static_job()] + start_jobs(tier, 0, F=0, types=(1,)))
+
+prop("C17", units=["reproc/src/reproc.c (reproc_read, reproc_write, setup_input, reproc_start)",
+                   "reproc/src/pipe.posix.c (pipe_read, pipe_write, pipe_nonblocking)", "reproc/src/redirect.c (redirect_pipe)"],
+     assumptions=IO_ASSUME + [
+         "'waits' is the model's ghost flag set whenever read/write/waitpid has to wait for an event; blocking forever is "
+         "tolerated only without the nonblocking option (the child may never act)",
+         "H_start (stdin pipe): start-up input of 0..3 bytes against the 2-byte pipe, O_NONBLOCK placement after start",
+     ],
+     outside=["pipe capacities other than the scaled one (only 'below / at / above capacity' is represented)"])
+add("C17", lambda tier: [io_job(tier, 0), io_job(tier, 1)] + start_jobs(tier, 0, types=(1,)))
